@@ -527,3 +527,63 @@ func (in *Interp) decideV(c value, why string) bool {
 	}
 	panic("decideV")
 }
+
+// ---------- base64: decode(encode(B)) = B at term level ----------
+//
+// Encoding symbolic octets produces one table-lookup term per digit; decoding those digits again through
+// the library's validity checks and reverse table is expensive for the solver although the result is B by
+// construction. Encoders (the std one and the harness reference encoder) record (digits, source); a decode
+// of exactly those digit terms returns the recorded source. Anything else takes the interpreted path.
+
+type b64rec struct{ chars, src []value }
+
+func (in *Interp) noteB64(chars, src []value) {
+	if _, conc := concreteBytes(chars); conc {
+		return
+	}
+	recs, _ := in.natives["b64"].([]*b64rec)
+	in.natives["b64"] = append(recs, &b64rec{append([]value(nil), chars...), append([]value(nil), src...)})
+}
+
+func (in *Interp) b64Source(chars []value) ([]value, bool) {
+	recs, _ := in.natives["b64"].([]*b64rec)
+	for _, r := range recs {
+		if sameValues(r.chars, chars) {
+			return r.src, true
+		}
+	}
+	return nil, false
+}
+
+func init() {
+	ext := externals
+	ext[hname("vNoteBase64")] = func(in *Interp, fr *frame, args []value) value {
+		in.noteB64(args[0].(str).bytes(), args[1].([]value))
+		return nil
+	}
+	ext[hname("vBase64Source")] = func(in *Interp, fr *frame, args []value) value {
+		if src, ok := in.b64Source(args[0].(str).bytes()); ok {
+			return tuple{append([]value(nil), src...), true}
+		}
+		return tuple{[]value(nil), false}
+	}
+	ext["(*encoding/base64.Encoding).EncodeToString"] = func(in *Interp, fr *frame, args []value) value {
+		r := in.runBody(fr, args)
+		if src, ok := args[1].([]value); ok {
+			in.noteB64(r.(str).bytes(), src)
+		}
+		return r
+	}
+	ext["(*encoding/base64.Encoding).Decode"] = func(in *Interp, fr *frame, args []value) value {
+		dst, _ := args[1].([]value)
+		src, _ := args[2].([]value)
+		if b, ok := in.b64Source(src); ok && len(dst) >= len(b) {
+			in.stubs["base64 decode(encode(x)) = x"]++
+			for i := range b {
+				in.store(&dst[i], b[i])
+			}
+			return tuple{uint64(len(b)), iface{}}
+		}
+		return in.runBody(fr, args)
+	}
+}
